@@ -95,6 +95,17 @@ CHECKS = {
              note=BASE_NOTE + "The model has one write path and one read path (the decisions are shared code in writer.rs / walrus_read.rs); kernel behaviour "
              "(pread/mmap coherence, io_uring ordering, short reads) is exercised by the runs, not modelled. Sequential callers, no injected faults.",
              tech="Lean 4 proof (commutation of disjoint writes up to permutation, induction over List.Perm) + double differential correspondence (fd vs mmap vs model)", ref="§6 C16"),
+ "C06": dict(text="Partial. Theorem C06_restarts_invisible (entry-level model AEngR = AEng + clean restart): every history of appends, batches, both read APIs, peeks, "
+             "offset reads and counts with ANY number of restart events at ANY positions is a history of the FIFO specification in which a restart is a no-op "
+             "(nothing lost, redelivered or reordered; counts unchanged), StrictlyAtOnce, any payload sizes, any geometry; C06_restart_keeps_topic, "
+             "C06_next_after_restart, C06_batch_after_restart for every reachable state. The restart transformation of AEngR is tied to startup_chore (scan, "
+             "synthetic ids, index hydration) by the correspondence: Eng.openInst and the real engine run the same ~600 restart histories per quick run and must "
+             "agree with AEngR operation by operation across every restart. Not proved: the recovery scan itself; AtLeastOnce restarts (oracle only). False on this "
+             "tree in four regions, reported as KNOWN-FINDING with corpus witnesses: emptyBlockAllocated, scanStopsAtEmptyBlock, clockRegressionReordersFiles "
+             "(the statement's 'any wall-clock behaviour'), sealThenAllocFail.",
+             note=BASE_NOTE + "Scope of the theorem: histories on which no trigger of the four open findings fires (friendlyFrom, monotone clock, entries <= MAX_ALLOC), StrictlyAtOnce, "
+             "sequential callers, clean shutdown. The driver stops comparing AEngR at the first trigger; from there on only Eng (which reproduces the defects) is compared.",
+             tech="Lean 4 proof (refinement of the FIFO spec extended with restart events; induction over histories) + differential correspondence across restarts + oracle", ref="§6 C06"),
 }
 NOT_APPLICABLE = {
  "C19": "statement about the vendored openraft core + QUIC transport + tokio runtime, none of which can be built or run offline here (tokio, quinn, rustls, futures absent from the registry); a free-standing Raft proof would be tied to nothing (DESIGN.md §6 C19)",
